@@ -38,6 +38,8 @@ where
     M::State: Hash + Send + 'static,
 {
     pub(crate) fn spawn(options: CheckerBuilder<M>) -> Self {
+        #[cfg(getong_stateright_verif)]
+        use crate::verif::time::SystemTime;
         let model = Arc::new(options.model);
         let target_state_count = options.target_state_count;
         let target_max_depth = options.target_max_depth;
@@ -131,6 +133,8 @@ where
                                 target_max_depth,
                                 &max_depth,
                             );
+                            #[cfg(getong_stateright_verif)]
+                            crate::verif::yield_point("block-end");
                             if finish_when.matches(
                                 &discoveries.iter().map(|r| *r.key()).collect(),
                                 &properties,
@@ -207,6 +211,8 @@ where
                 None => return,
                 Some(pair) => pair,
             };
+            #[cfg(getong_stateright_verif)]
+            crate::verif::yield_point("state");
 
             if max_depth.get() > current_max_depth {
                 let _ = global_max_depth.compare_exchange(
@@ -301,6 +307,8 @@ where
                 // that it holds in the path leading to the second visit -- another
                 // possible false-negative.
                 let next_fingerprint = fingerprint(&next_state);
+                #[cfg(getong_stateright_verif)]
+                crate::verif::yield_point("gen");
                 if let Entry::Vacant(next_entry) = generated.entry(next_fingerprint) {
                     next_entry.insert(Some(state_fp));
                 } else {
@@ -325,6 +333,8 @@ where
                     NonZeroUsize::new(max_depth.get() + 1).unwrap(),
                 ));
             }
+            #[cfg(getong_stateright_verif)]
+            crate::verif::yield_point("terminal");
             if is_terminal {
                 for (i, property) in properties.iter().enumerate() {
                     // Once a discovery exists the bits are no longer maintained along the path (see
